@@ -367,6 +367,17 @@ def finish(prop, tier, seed, mod, cases, results, known, wall):
     for kid, kh in sorted(seen_known.items()):
         lines.append(f"KNOWN-FINDING: property={prop} {kid}: {kh['what']} (e.g. {kh['signature']})")
     vio_out = []
+    n_viol_total = len(violations)
+    # one replay file / line per distinct signature, capped: a broken tree can fail thousands
+    seen_sig = set()
+    uniq = []
+    for case, v in violations:
+        sg = _signature(case, v["label"])
+        if sg in seen_sig:
+            continue
+        seen_sig.add(sg)
+        uniq.append((case, v))
+    violations = uniq[:40]
     for case, v in violations:
         sig = _signature(case, v["label"])
         payload = {
@@ -398,7 +409,7 @@ def finish(prop, tier, seed, mod, cases, results, known, wall):
         "seed": seed,
         "level": "model_checking",
         "wall_s": round(wall, 3),
-        "violations": len(vio_out),
+        "violations": n_viol_total,
         "coverage": {
             "states": max(tot.paths, 0),
             "transitions": tot.decisions + tot.choices,
